@@ -78,6 +78,8 @@ impl Marker {
                 MarkEvent::NodeStart { kind, .. } => *kind = LuaSyntaxKind::None,
                 _ => unreachable!(),
             }
+            // the node is dropped without a NodeEnd, so it no longer counts as open
+            p.decr_mark_level();
             return CompleteMarker {
                 start: 0,
                 kind: LuaSyntaxKind::None,
@@ -97,6 +99,8 @@ impl Marker {
             }
             _ => unreachable!(),
         }
+        // the node is dropped without a NodeEnd, so it no longer counts as open
+        p.decr_mark_level();
 
         CompleteMarker {
             start: self.position,
